@@ -43,13 +43,20 @@ THEOREMS = ['C11_inverse_den', 'C11_inverse_complcell_rejects',
             'C11_handover_no_complement', 'C11_handover_loop',
             'C11_deck_end_to_end',
             'C11_written_dichotomy', 'C11_rejected_iff_nested',
-            'C11_get_ast2_eq_bounded',
+            'C11_get_ast2_eq_bounded', 'C11_get_ast2_eq_bounded6',
+            'C11_normalize2_normal_form', 'C11_peg_normal_form',
+            'C11_get_ast2_eq_written', 'C11_get_ast2_eq_accepted',
+            'C11_get_ast2_layout_partial',
             'C11_nested_refuted']
 TRUSTED = [
-    'hand-written model coq/C11/Model.v: lexer + pushdown precedence parser '
-    'standing for the regex pipeline + PEG (structurally different from the '
-    'code; agreement established by the exhaustive bounded tie and the '
-    'generated ties only)',
+    'two hand-written models of get_ast: coq/C11/Model.v (lexer + pushdown '
+    'automaton, used by the theorems) and coq/C11/Regex.v (one rewriting '
+    'function per re.sub of normalize() + character-level PEG, shaped like '
+    'the code). Trusted: each regex = its rewriting function and the PEG = '
+    'peg_start beyond the enumerated lengths (tied step by step on all short '
+    'strings). Proved: the two models agree on every writing of every '
+    'expression (any length) and on all strings of length <= 6; not proved: '
+    'the rejected side outside the layout family for longer strings',
     'harness PEG shim replacing TatSu (reads geom.ebnf and GeomSemantics from '
     'the repository)',
     'fingerprints of the exhaustive tie: equality of (accepted count, weighted '
